@@ -47,7 +47,9 @@ func (o *Obl) query(withModel bool) string {
 	b.WriteString("\n")
 	fmt.Fprintf(&b, "(assert %s)\n(assert (not %s))\n(check-sat)\n", o.PC, o.Cond)
 	if withModel && len(e.inputs) > 0 {
-		fmt.Fprintf(&b, "(get-value (%s))\n", strings.Join(e.inputs, " "))
+		// probe terms are computed before the prelude is printed? no: they may register
+		// nothing new (they only use sorts already present)
+		fmt.Fprintf(&b, "(get-value (%s))\n", strings.Join(e.probeTerms(), "\n "))
 	}
 	return b.String()
 }
@@ -153,15 +155,15 @@ func solve(file string, timeout time.Duration, cross bool) SolveResult {
 	return SolveResult{Status: st, Solver: "none", Seconds: worst, Output: strings.Join(outs, "\n"), File: file}
 }
 
-// parseModel reads a (get-value ...) answer: ((name value) (name value) ...)
-func parseModel(out string) map[string]string {
+// parseModelValues reads a (get-value ...) answer ((term value) (term value) ...) and
+// returns the values in order (solvers answer in the order asked).
+func parseModelValues(out string) []string {
 	idx := strings.Index(out, "((")
 	if idx < 0 {
 		return nil
 	}
 	s := out[idx:]
-	m := map[string]string{}
-	// simple s-expression reader
+	var vals []string
 	pos := 1
 	for pos < len(s) {
 		for pos < len(s) && (s[pos] == ' ' || s[pos] == '\n' || s[pos] == '\t' || s[pos] == '\r') {
@@ -174,12 +176,38 @@ func parseModel(out string) map[string]string {
 		if end < 0 {
 			break
 		}
-		inner := s[pos+1 : end]
-		sp := strings.IndexAny(inner, " \n")
-		if sp > 0 {
-			m[inner[:sp]] = strings.TrimSpace(inner[sp+1:])
+		parts := splitSexp(s[pos+1 : end])
+		if len(parts) == 2 {
+			vals = append(vals, strings.Join(strings.Fields(parts[1]), " "))
+		} else {
+			vals = append(vals, "")
 		}
 		pos = end + 1
+	}
+	return vals
+}
+
+func parseModel(out string) map[string]string {
+	m := map[string]string{}
+	for i, v := range parseModelValues(out) {
+		m[fmt.Sprintf("#%d", i)] = v
+	}
+	return m
+}
+
+// modelFor zips the probe terms of the obligation with the solver's answers.
+func (o *Obl) modelFor(out string) map[string]string {
+	if o.enc == nil || len(o.enc.inputs) == 0 {
+		return nil
+	}
+	terms := o.enc.probeTerms()
+	vals := parseModelValues(out)
+	if len(vals) != len(terms) {
+		return nil
+	}
+	m := map[string]string{}
+	for i, t := range terms {
+		m[t] = vals[i]
 	}
 	return m
 }
@@ -225,6 +253,22 @@ func dischargeAll(obls []*Obl, dir string, timeout time.Duration, cross bool, pa
 			file := filepath.Join(dir, fmt.Sprintf("o%04d.smt2", i))
 			os.WriteFile(file, []byte(o.query(true)), 0o644)
 			r := solve(file, timeout, cross)
+			if r.Status == "sat" {
+				r.Model = o.modelFor(r.Output)
+				// prefer a small counterexample for replay: same query plus size bounds
+				if small := o.smallModelConstraints(); small != "" {
+					f2 := strings.TrimSuffix(file, ".smt2") + "-small.smt2"
+					q := strings.Replace(o.query(true), "(check-sat)", small+"(check-sat)", 1)
+					os.WriteFile(f2, []byte(q), 0o644)
+					r2 := solve(f2, timeout, false)
+					if r2.Status == "sat" {
+						if m := o.modelFor(r2.Output); m != nil {
+							r.Model = m
+							r.Output = r2.Output
+						}
+					}
+				}
+			}
 			mu.Lock()
 			res[o] = r
 			mu.Unlock()
@@ -232,4 +276,22 @@ func dischargeAll(obls []*Obl, dir string, timeout time.Duration, cross bool, pa
 	}
 	wg.Wait()
 	return res
+}
+
+// smallModelConstraints bounds the lengths of input slices and strings (only used to
+// obtain a replayable counterexample after the unrestricted query was already sat).
+func (o *Obl) smallModelConstraints() string {
+	if o.enc == nil {
+		return ""
+	}
+	var b strings.Builder
+	for _, t := range o.enc.probeTerms() {
+		switch {
+		case strings.HasPrefix(t, "(sl-len "):
+			fmt.Fprintf(&b, "(assert (bvule %s %s))\n", t, bvLit(probeSliceElems, 64))
+		case strings.HasPrefix(t, "(slen "):
+			fmt.Fprintf(&b, "(assert (bvule %s %s))\n", t, bvLit(probeStrBytes, 64))
+		}
+	}
+	return b.String()
 }
